@@ -344,4 +344,32 @@ theorem shardHashesK {X : Codec} {leaf : Bool → Frag → Rd.R} {w : Val → Va
       (Kept (hashmapE 32 (ref (binTree X))) s v s' ∧ Rd.loadShardHashes leaf s = some (viewDict (viewBinTree w) 32 v, s')) :=
   dictK (refines_binTreeRef hleaf) 32 s v s'
 
+theorem loadMaybeRef_eq_optional (s : Frag) : Rd.loadMaybeRef s = Rd.optional s Rd.loadRefV := rfl
+
+/-! ### a `HashmapAugE` kept as its root cell (`McBlockExtra.shard_fees`) -/
+
+/-- `load_maybe_ref()` + two CurrencyCollections against `ShardFees` = `HashmapAugE 96 ShardFeeCreated ShardFeeCreated`: the Maybe
+    reference is the root (by presence), the two CurrencyCollections are the top-level `extra:ShardFeeCreated` -/
+theorem shardFeesK {r : Frag → Rd.R} {w} (hcc : Refines r currencyCollection w) (s : Frag) (v : Val) (s' : Frag) :
+    (shardFees.dec s = some (v, s')) ↔
+      (Kept shardFees s v s' ∧ ∃ c s1 e1 s2 e2, Rd.loadMaybeRef s = some (c, s1) ∧ Rd.presence c = presenceOfAugE v ∧
+        r s1 = some (e1, s2) ∧ r s2 = some (e2, s')) := by
+  refine ⟨fun hd => ⟨hd, ?_⟩, fun hd => hd.1⟩
+  obtain ⟨bits, refs⟩ := s
+  simp only [shardFees, typ_dec, hashmapAugE, shardFeeCreated, tagged_dec, decAlts_cons, decAlts_nil, recd_dec, fld, decFields_cons,
+    decFields_nil, ref_dec] at hd
+  obtain ⟨_, hd⟩ := hd
+  rcases hd with ⟨t, rs, hs, xx, ⟨vs, ⟨e, s1, ⟨vs2, ⟨a, s2, ha, vs3, ⟨b, s3, hb, vs4, ⟨rfl, rfl⟩, rfl⟩, rfl⟩, rfl⟩, vs', ⟨rfl, rfl⟩, rfl⟩, rfl⟩, rfl⟩ |
+    ⟨_, ⟨t, rs, hs, xx, ⟨vs, ⟨tv, s1, ⟨bs, b0, r0, more, hs2, hx', rfl⟩, vs', ⟨e, s2, ⟨vs2, ⟨a, s3, ha, vs3, ⟨b, s4, hb, vs4, ⟨rfl, rfl⟩, rfl⟩, rfl⟩, rfl⟩, vs'', ⟨rfl, rfl⟩, rfl⟩, rfl⟩, rfl⟩, rfl⟩ | ⟨_, hf⟩⟩
+  rotate_left 2
+  · exact hf.elim
+  · simp only [Frag.mk.injEq] at hs
+    obtain ⟨rfl, rfl⟩ := hs
+    exact ⟨.unit, _, _, _, _, by simp [Rd.loadMaybeRef, loadBit_cons, Rd.truthy], rfl, hcc _ _ _ ha, hcc _ _ _ hb⟩
+  · simp only [Frag.mk.injEq] at hs hs2
+    obtain ⟨rfl, rfl⟩ := hs
+    obtain ⟨rfl, rfl⟩ := hs2
+    exact ⟨.cell (Cell.mk false b0 r0), _, _, _, _, by simp [Rd.loadMaybeRef, loadBit_cons, Rd.truthy, Rd.loadRefV, loadRef_cons], rfl,
+      hcc _ _ _ ha, hcc _ _ _ hb⟩
+
 end TonVerif.Tlb.Blk
